@@ -38,6 +38,7 @@ import hashlib
 import itertools
 import math
 import multiprocessing
+import numbers
 import os
 import random as _pyrandom
 import signal
@@ -296,7 +297,7 @@ def _case_hoad(rec, p):
         e = tuple(e)
         if (len(e) - 1) not in acts:
             sizes_ok.append([t, list(e)])
-        if not (_distinct(e) and all(isinstance(v, int) and not isinstance(v, bool) and 0 <= v < N for v in e)):
+        if not (_distinct(e) and all(isinstance(v, numbers.Integral) and 0 <= v < N for v in e)):
             nodes_ok.append([t, list(e)])
         if not (0 <= t < horizon):
             times_ok.append([t, list(e)])
@@ -327,8 +328,9 @@ def _case_are(rec, p):
         return False
     rec.check(True, fn, "does not raise on admissible input", p)
     res = h if p["inplace"] else r
-    if not rec.check(hasattr(res, "get_edges"), fn, "returns the extended hypergraph when inplace=False", p,
-                     expected="Hypergraph", observed=type(res).__name__, replay=p):
+    if not p["inplace"] and not rec.check(hasattr(res, "get_edges"), fn,
+                                          "returns the extended hypergraph when inplace=False", p,
+                                          expected="Hypergraph", observed=type(res).__name__, replay=p):
         return False
     after = _snap(res)
     added = [e for e in after["raw"] if tuple(sorted(e)) not in before["edges"]]
